@@ -140,6 +140,17 @@ def main():
                      'args': {'minibatch_size': MB, 'subsampling': SS, 'heuristic': heur, 'target_ranking_only': 'True'}})
         actual_good = sum(1 for p_, kd_ in enumerate(kinds, start=1) if p_ % SS == 0 and kd_ == 'good')
         meta.append((MB, SS, k, extra, heur, len(kinds), kinds, actual_good))
+    # one gzip-compressed VW run (ob-vw) through the same loop (every namespace present: an absent namespace makes
+    # compute_bounds_increment raise on the None cell - recorded as an observation in DESIGN.md, outside C08's quantifier)
+    MBv, SSv, nv = 1100, 2, 2 * 1100 * 2 + 1030 * 2 + 1
+    vw_lines = ['header-line-is-skipped\n']
+    for p_ in range(1, nv + 1):
+        ns2 = f' |BX xx{p_ % 7} yy{p_ % 3}' if p_ % 5 else ' |BX xx0'
+        vw_lines.append(f'{p_ % 2} |AE id{p_}{ns2}\n')
+    jobs.append({'op': 'run_stream', 'columns': ['label', 'id', 'f1'], 'lines': vw_lines, 'gzip': True, 'file_name': 'data.vw.gz', 'fw_map': {'AE': 'id', 'BX': 'f1'},
+                 'opts': {'id_col': 1}, 'delimiter': None,
+                 'args': {'minibatch_size': MBv, 'subsampling': SSv, 'heuristic': 'Constant', 'target_ranking_only': 'True', 'data_source': 'ob-vw'}})
+    meta.append((MBv, SSv, 2, 1030, 'Constant', nv, ['good'] * nv, nv // SSv))
     got = PC.pipe_eval(jobs, modules=['pipe_ops'], procs=8)
     wd = E.workdir('c08t')
     try:
